@@ -2,7 +2,7 @@
 """store a confirmed seeded change: tools/store_seeded.py <ID> <name> <detected_by> <initially: caught|missed> <note>"""
 import json, os, shutil, sys
 pid, name, detected_by, initially, note = sys.argv[1:6]
-src = "/tmp/seed_out/%s" % pid
+src = os.path.join(os.environ.get("SEEDROOT", "/tmp/seed_out"), pid)
 dst = "/verif/seeded/%s" % name
 os.makedirs(dst, exist_ok=True)
 for f in ("patch.diff", "demo.diff"):
